@@ -324,14 +324,23 @@ def judge(attempts, delay, rf, dnr, seq, shape, log, ending, inner):
 
 
 def context(attempts, rf, dnr, seq, i):
+    """The reference's decision after attempt i, with every reason that applies: the defect class."""
     if i is None or i < 0 or i >= len(seq):
         return "at=construction" if i is None else "at=start"
     sym = seq[i]
-    last = "last-attempt" if i == attempts - 1 else "earlier-attempt"
     if sym in SUCCESS:
-        return f"{last}|outcome=returns-{sym}"
+        return f"after=returns-{sym}"
     cls = NAMES[sym]
-    return f"{last}|outcome=raises|retry_for={relation(cls, rf)}|do_not_retry_for={relation(cls, dnr)}"
+    reasons = []
+    if i == attempts - 1:
+        reasons.append("last-attempt")
+    if rf and not matches(cls, rf):
+        reasons.append("not-in-retry_for")
+    if dnr and matches(cls, dnr):
+        reasons.append(f"in-do_not_retry_for({relation(cls, dnr)})")
+    if reasons:
+        return "must-stop:" + "+".join(reasons)
+    return f"must-retry:retry_for={relation(cls, rf)}|do_not_retry_for={relation(cls, dnr)}"
 
 
 def detail_of(attempts, delay, rfm, rsp, dnm, dsp, seq, shape):
@@ -340,19 +349,24 @@ def detail_of(attempts, delay, rfm, rsp, dnm, dsp, seq, shape):
             "do_not_retry_for_spelling": dsp, "sequence": list(seq), "shape": shape}
 
 
-def one(chk, attempts, delay, rfm, rsp, dnm, dsp, seq, shape="op"):
+def one(chk, attempts, delay, rfm, rsp, dnm, dsp, seq, shape="op", general=()):
+    """Run and judge one case.  `general`: signatures the same case produces through the plain entry
+    point; an entry-point case is only reported (with |via=) when it fails differently from that."""
     rf, dnr = members(rfm), members(dnm)
     log, ending, inner = run_case(attempts, delay, spell(rfm, rsp), spell(dnm, dsp), seq, shape)
     chk.add()
     bad = judge(attempts, delay, rf, dnr, seq, shape, log, ending, inner)
     if bad:
         kind, i, text = bad
-        sig = f"{kind}|{context(attempts, rf, dnr, seq, i)}" + ("" if shape in ("op", "op-noargs") else f"|via={shape}")
-        chk.violation(
-            sig,
-            f"RetryingClient(attempts={attempts}, retry_delay={delay!r}, retry_for={show_coll(rf, rsp)}, "
-            f"do_not_retry_for={show_coll(dnr, dsp)}).{shape}: wrapped call outcomes {list(seq)} -> {text}",
-            detail_of(attempts, delay, rfm, rsp, dnm, dsp, seq, shape))
+        sig = f"{kind}|{context(attempts, rf, dnr, seq, i)}"
+        if sig not in general:
+            if shape not in ("op", "op-noargs"):
+                sig += f"|via={shape}"
+            chk.violation(
+                sig,
+                f"RetryingClient(attempts={attempts}, retry_delay={delay!r}, retry_for={show_coll(rf, rsp)}, "
+                f"do_not_retry_for={show_coll(dnr, dsp)}).{shape}: wrapped call outcomes {list(seq)} -> {text}",
+                detail_of(attempts, delay, rfm, rsp, dnm, dsp, seq, shape))
     return log, ending
 
 
@@ -508,7 +522,10 @@ def _shapes(chk):
                 for seq in sequences(attempts, members(rfm), members(dnm)):
                     if any(s not in SUCCESS for s in seq):
                         chk.outcome((shape, attempts, rfm, dnm, seq_code(seq)))
-                    one(chk, attempts, 0.5, rfm, "tuple" if rfm else "none", dnm, "list" if dnm else "none", seq, shape)
+                    rsp, dsp = "tuple" if rfm else "none", "list" if dnm else "none"
+                    plain = chk.fresh()
+                    one(plain, attempts, 0.5, rfm, rsp, dnm, dsp, seq, "op")
+                    one(chk, attempts, 0.5, rfm, rsp, dnm, dsp, seq, shape, general=plain.violations)
                     chk.count("entry_point_cases")
 
 
